@@ -64,10 +64,8 @@ def lockAlias : List (Nat × Nat) := [
 
 /-- Examined; real unsynchronised pairs (see known-findings.txt and the report). -/
 def knownRacy : List Racy := [
-  -- lru.Cache.RangeFILO / RangeFIFO walk the recency list without the mutex (race detector: confirmed)
-  -- (the other side is whatever mutates the list under the mutex: Put, Get, LoadAndDelete, evict and their helpers)
-  ⟨N.«lru.Cache.ll», N.«lru.Cache.RangeFILO», N.«lru.Cache.Put», true⟩,
-  ⟨N.«lru.Cache.ll», N.«lru.Cache.RangeFIFO», N.«lru.Cache.Put», true⟩,
+  -- (lru.Cache.RangeFILO / RangeFIFO used to walk the recency list without the mutex: repaired in /repo 6926388,
+  --  they now copy the entries under the read lock; the pairs share c.mtx)
   -- (UtxoScanner.Stop used to drain pq without cv.L while an Enqueue that had passed its quit check could still be
   --  pushing: repaired in /repo d581b3e, the pair now shares cv.L)
   -- FetchHeaderAncestors reads h.file without the store mutex; truncateHeaders re-assigns it (windows branch only)
